@@ -74,7 +74,7 @@ func (r *ReduceMin) Apply(inputs []tensor.Tensor) ([]tensor.Tensor, error) {
 		seen[axes[i]] = true
 	}
 
-	out, err := input.Min(axes...)
+	out, err := reduceAlongAxes(input, axes, func(t *tensor.Dense) (*tensor.Dense, error) { return t.Min(1) })
 	if err != nil {
 		return nil, err
 	}
